@@ -56,4 +56,22 @@ def slice (xs : List UInt8) (a b : Int) : List UInt8 := (xs.drop a.toNat).take (
 /-- `x[a:b] = src` on a bytearray for non-negative bounds (a NumPy array refuses a source of another length: not modelled) -/
 def setslice (xs : List UInt8) (a b : Int) (src : List UInt8) : List UInt8 := xs.take a.toNat ++ src ++ xs.drop b.toNat
 
+/-- an XBuffer object: storage, capacity, free list -/
+structure XBuf where
+  buffer_ : List UInt8
+  capacity_ : Int
+  chunks_ : List Obj
+
+/-- `self._new_buffer(n)` of both CPU kinds (`np.zeros(n, int8)` / `bytearray(n)`): n zero bytes (primitive, not translated) -/
+def new_buffer (n : Int) : List UInt8 := List.replicate n.toNat 0
+
+/-- `xs[-1]` of a list of chunks (an IndexError on the empty list is not modelled: a chunk [0, 0)) -/
+def last (xs : List Obj) : Obj := xs.getLast?.getD ⟨0, 0⟩
+
+/-- `xs[-1].end = e`: the objects in the list are mutable, the last one is changed in place -/
+def setLastEnd : List Obj → Int → List Obj
+ | [], _ => []
+ | [c], e => [{ c with end_ := e }]
+ | c :: d :: cs, e => c :: setLastEnd (d :: cs) e
+
 end Py
